@@ -12,6 +12,7 @@ case "$id" in
   *.r4) src="/tmp/mut4-$prop/SEEDED" ;;
   *.r5) src="/tmp/mut5-$prop/SEEDED" ;;
   *.r6) src="/tmp/mut6-$prop/SEEDED" ;;
+  *.r7) src="/tmp/mut7-$prop/SEEDED" ;;
   *)    src="/tmp/mut-$prop/SEEDED" ;;
 esac
 dst="seeded/$id"
